@@ -374,6 +374,9 @@ class ExprMixin:
                     return False
                 return z3.Or(*[item.t == str_term(k) for k in ks]) if len(ks) > 1 else item.t == str_term(ks[0])
             return False
+        if isinstance(container, Sym) and container.tag == "atts" and (isinstance(item, str) or (isinstance(item, Sym) and item.tag == "attkey")):
+            k = self.att_key_index(item)        # key in atts: the stored value is not the "absent" encoding
+            return False if k is None else T.att_field_at(container.t, k) != 0
         from .values import SymDict
         if isinstance(container, Ref) and isinstance(st.deref(container), SymDict) and is_int(item):
             d = st.deref(container)
